@@ -608,6 +608,54 @@ def r8_ext_arms(ctx, m, me) -> None:
     ctx.check("Custom" not in ae["refused"] or True, "C12.R8", "export_node: arms distinct", m.path, fn.lineno, "", fn)
 
 
+def r9_symbol_params(ctx, m, rule="C12.R9") -> None:
+    """export_symbol: every parameter is declared under the name str(<its position in the whole parameter list>), and a copyable type
+    parameter gets its `core.nonlinear` constraint on that same name"""
+    from ..paths import summaries
+    from ..tmpl import T, tfind, tmatch
+    q = f"{EXP}.ModelExport.export_symbol"
+    fn, _, _ = ctx.locate(q)
+    pt = fn.args.args[2].arg if len(fn.args.args) > 2 else None
+    if pt is None:
+        ctx.broken("export_symbol: expected (self, name, param_types, body)")
+    cf = ctx.cfn(q)
+    why = ""
+    ok_p = ok_c = False
+    # positions taken from a search for an equal element are not positions (duplicates): known-wrong idiom
+    idx = [c for c in ast.walk(cf) if isinstance(c, ast.Call) and isinstance(c.func, ast.Attribute) and c.func.attr == "index" and u(c.func.value) == pt]
+    if idx:
+        ctx.fail(rule, "export_symbol: parameters named by position", m.path, getattr(idx[0], "lineno", fn.lineno),
+                 f"`{u(idx[0])}` is the position of the first *equal* parameter: two equal parameters get one name, so a variable of the signature "
+                 "is unbound and a constraint is lost", idx[0])
+        return
+    loops = [x for x in cf.body if isinstance(x, ast.For)]
+    if len(loops) == 1 and u(loops[0].iter) == f"enumerate({pt})" and isinstance(loops[0].target, ast.Tuple) and len(loops[0].target.elts) == 2:
+        i_, p_ = u(loops[0].target.elts[0]), u(loops[0].target.elts[1])
+        qs = summaries(loops[0].body)
+        ok_p = ok_c = bool(qs)
+        for s_ in qs:
+            decl = s_.find_effect(f"L_ps.append(model.Param(str({i_}), {p_}.to_model()))")
+            ok_p = ok_p and len(decl) == 1 and s_.kind in ("fall", "continue")
+            ty = [k for t, k in s_.tests if u(t) == f"isinstance({p_}, TypeTypeParam)"]
+            cp = [k for t, k in s_.tests if u(t) in (f"{p_}.bound == TypeBound.Copyable", f"TypeBound.Copyable == {p_}.bound")]
+            con = s_.find_effect(f"L_cs.append(model.Apply('core.nonlinear', [model.Var(str({i_}))]))")
+            others = [e for e in s_.effects if "core.nonlinear" in u(e)]
+            want = bool(ty) and ty[0] and bool(cp) and cp[0]
+            ok_c = ok_c and (len(con) == 1 and len(others) == 1 if want else not others) and bool(ty)
+    else:
+        decl = tfind(cf, T(f"L_ps = [model.Param(str(c0), c1.to_model()) for c0, c1 in enumerate({pt})]"))
+        ok_p = len(decl) == 1
+        for tm in (f"[model.Apply('core.nonlinear', [model.Var(str(c0))]) for c0, c1 in enumerate({pt}) if isinstance(c1, TypeTypeParam) if c1.bound == TypeBound.Copyable]",):
+            ok_c = ok_c or bool(tfind(cf, T(tm)))
+        if not ok_p and not ok_c and not any("core.nonlinear" in u(x) for x in ast.walk(cf) if isinstance(x, ast.Constant)):
+            ctx.broken("export_symbol: neither a loop over enumerate(param_types) nor the comprehension form")
+    ctx.check(ok_p, rule, "export_symbol: parameters named by position", m.path, fn.lineno,
+              "parameter i of the list is declared as model.Param(str(i), its exported type): variables of the signature refer to parameters by that name", fn)
+    ctx.check(ok_c, rule, "export_symbol: copyable type parameters constrained under their own name", m.path, fn.lineno,
+              "a type parameter with bound Copyable gets core.nonlinear on model.Var(str(i)) with i its position in the *whole* parameter list, and no "
+              "other parameter gets one", fn)
+
+
 def run(ctx) -> None:
     ctx.rule("C12.R1", "every mangled symbol takes name and node from the same operation (def-use through the match binding)", floor=3)
     ctx.rule("C12.R2", "order hints are collected per order edge between non-boundary siblings and passed to the region", floor=2)
@@ -629,6 +677,8 @@ def run(ctx) -> None:
     r6_binding_table(ctx)
     r7_plumbing(ctx, m, me)
     r8_ext_arms(ctx, m, me)
+    ctx.rule("C12.R9", "symbols declare their parameters by position and constrain copyable type parameters under that name", floor=2)
+    r9_symbol_params(ctx, m)
     from .. import lints
     lints.arm(ctx)
 
